@@ -524,6 +524,8 @@ class _Oracle(object):
         self.inst_kind = []    # KIND per instance
         self.cells = {}        # (i, NAME) -> value | ABSENT | UNKNOWN
         self.link = {}         # b -> a | None | UNKNOWN
+        self.next_id = 1       # the value the metamodel's IntegerGenerator hands out next (one per non-referential
+        #                        unique_id attribute of every creation, also when the caller supplies the id)
 
     def decl(self, i):
         return self.classes[self.inst_kind[i]]
@@ -654,6 +656,9 @@ def run_impl(case):
             orc.inst_kind.append(K)
             for a, v in row:
                 orc.cells[(i, a.upper())] = v
+            # the loader creates the instance with defaults first: one generator value per non-referential unique id
+            decl = orc.classes[K]
+            orc.next_id += sum(1 for a, t in decl['attrs'] if t.upper() == 'UNIQUE_ID' and a != decl['ref'])
         kT = dict((a.upper(), t) for a, t in a_attrs)[sch['tkey'].upper()].upper()
         for i, (K, row) in enumerate(case['rows']):
             if K != kb.upper():
@@ -749,10 +754,36 @@ def run_impl(case):
                         fail('unknown-class-found', 'find_metaclass(%r) found %r' % (op[1], mc.kind), n)
                     elif mc is not m.find_metaclass(orc.classes[K]['kind']):
                         fail('class-lookup-case', 'find_metaclass(%r) and find_metaclass(%r) differ' % (op[1], orc.classes[K]['kind']), n)
+                    else:
+                        decl = orc.classes[K]
+                        # what was found is compared with what the HISTORY defined, not with another lookup
+                        if mc.kind != decl['kind'] or [tuple(a) for a in mc.attributes] != [tuple(a) for a in decl['attrs']]:
+                            fail('class-lookup-case', 'find_metaclass(%r) found the class %r with attributes %r, defined was %r with %r'
+                                 % (op[1], mc.kind, list(mc.attributes), decl['kind'], decl['attrs']), n)
+                        try:
+                            if m.find_class(op[1]) is not mc.clazz:
+                                fail('class-lookup-case', 'find_class(%r) is not the class of find_metaclass(%r)' % (op[1], op[1]), n)
+                        except (x.UnknownClassException, KeyError, AttributeError) as e:
+                            fail('class-lookup-case', 'find_class(%r) raised %s although class %r exists'
+                                 % (op[1], type(e).__name__, decl['kind']), n)
+                        for a, t in decl['attrs']:
+                            for sp in (a, a.upper(), a.lower(), a.swapcase()):
+                                if mc.attribute_type(sp) != t:
+                                    fail('attribute-type-case', 'attribute_type(%r) of %r gives %r, %r is declared as %r'
+                                         % (sp, decl['kind'], mc.attribute_type(sp), a, t), n)
+                        if mc.attribute_type('no_such_attribute_') is not None:
+                            fail('attribute-type-case', 'attribute_type of an undeclared name gives %r'
+                                 % (mc.attribute_type('no_such_attribute_'),), n)
                 except x.UnknownClassException:
                     res = Sym('UnknownClass')
                     if K in orc.classes:
                         fail('class-lookup-case', 'find_metaclass(%r) raised although class %r exists' % (op[1], orc.classes[K]['kind']), n)
+                    else:
+                        try:
+                            m.find_class(op[1])
+                            fail('unknown-class-found', 'find_class(%r) found a class' % op[1], n)
+                        except x.UnknownClassException:
+                            pass
             elif nm == 'new':
                 K = op[1].upper()
                 mc0 = m.metaclasses.get(K)
@@ -760,11 +791,18 @@ def run_impl(case):
                 kwargs = dict((k, v) for k, v in op[3])
                 exc = None
                 around = others(None)
+                returned = None
                 try:
-                    m.new(op[1], *op[2], **kwargs)
+                    returned = m.new(op[1], *op[2], **kwargs)
                 except (x.MetaException, AttributeError) as e:
                     exc = e
                     res = _exc_name(e)
+                if exc is None and K in orc.classes:
+                    pool = m.select_many(orc.classes[K]['kind'])
+                    if returned is None or not any(returned is o for o in pool) or \
+                            x.get_metaclass(returned).kind != orc.classes[K]['kind']:
+                        fail('new-returns-other', 'new(%r) returned %r, which is not the instance of %r it created'
+                             % (op[1], returned, orc.classes[K]['kind']), n)
                 check_others(around, 'new(%r, ...)' % op[1], n)
                 if list(kwargs.items()) != [(k, v) for k, v in op[3]]:
                     fail('argument-changed', 'new(%r) changed the keyword dictionary it was given to %r' % (op[1], kwargs), n)
@@ -882,6 +920,10 @@ def run_impl(case):
                         pool = list(m.find_metaclass(op[1]).storage)
                         plain = [index_of.get(id(o), -1) for o in x.where_eq(**dict((k, v) for k, v in op[2]))(pool)]
                         as_dict = [index_of.get(id(o), -1) for o in m.select_many(op[1], dict((k, v) for k, v in op[2]))]
+                        by_query = [index_of.get(id(o), -1) for o in m.find_metaclass(op[1]).query(dict((k, v) for k, v in op[2]))]
+                        if by_query != res:
+                            fail('where-eq-differs', 'select_many(%r, where_eq(%s)) gave %r, MetaClass.query with the same names and '
+                                 'values gives %r' % (op[1], op[2], res, by_query), n)
                         if plain != res or as_dict != res:
                             fail('where-eq-differs', 'select_many(%r, where_eq(%s)) gave %r, the same clause applied to the plain '
                                  'instance set gives %r, passed as a dict %r' % (op[1], op[2], res, plain, as_dict), n)
@@ -919,13 +961,30 @@ def run_impl(case):
                     res = Sym('AttributeError')
             elif nm in ('rel', 'unrel'):
                 i, j = op[1], op[2]
+                # the outcome the history determines (not taken from the implementation): the pair must be one instance of the
+                # referring and one of the referred class; a referring instance has at most one partner
+                want_ok = None
+                if orc.assoc is not None and {orc.inst_kind[i], orc.inst_kind[j]} == {orc.assoc[0], orc.assoc[2]} \
+                        and orc.assoc[0] != orc.assoc[2]:
+                    b, a = (i, j) if orc.inst_kind[i] == orc.assoc[0] else (j, i)
+                    cur = orc.link.get(b)
+                    if cur is not UNKNOWN:
+                        want_ok = (cur is None or cur == a) if nm == 'rel' else (cur == a)
+                elif orc.assoc is None or orc.inst_kind[i] == orc.inst_kind[j]:
+                    want_ok = False
+                accepted = False
                 try:
                     (x.relate if nm == 'rel' else x.unrelate)(insts[i], insts[j], 'R1')
+                    accepted = True
                     _oracle_link(orc, nm, i, j)
                 except (x.MetaException, AttributeError) as e:
                     # building a Relate/UnrelateException formats both instances (Class.__str__ reads every
                     # attribute): with a deleted attribute that raises AttributeError instead
                     res = _exc_name(e)
+                if want_ok is not None and accepted != want_ok:
+                    fail('relate-outcome', '%s(%d, %d) was %s, the links of the history (%r) require it to be %s'
+                         % ('relate' if nm == 'rel' else 'unrelate', i, j, 'accepted' if accepted else 'rejected',
+                            dict((k, v) for k, v in orc.link.items() if v is not UNKNOWN), 'accepted' if want_ok else 'rejected'), n)
                 for t in {i, j}:
                     check_instance(t, n)
             elif nm == 'ser':
@@ -1003,14 +1062,18 @@ def _oracle_new(orc, i, op, inst, exc, written):
                 given[a.upper()] = v
                 if a != ref:
                     written.setdefault((i, a.upper()), set()).add(k)
-    for a, _ in attrs:
+    for a, t in attrs:
         if ref is not None and a == ref:
             continue
-        if a.upper() in given:
-            orc.cells[(i, a.upper())] = given[a.upper()]
+        # the initial state of the history is computed HERE, not read from the instance: the typed default of the declared
+        # type (0, '', the next value of the integer generator - drawn for every unique id, supplied or not)
+        T = t.upper()
+        if T == 'UNIQUE_ID':
+            default = orc.next_id
+            orc.next_id += 1
         else:
-            # the initial state of the history: whatever default the constructor stored (typed defaults: C19)
-            orc.cells[(i, a.upper())] = inst.__dict__.get(a, ABSENT)
+            default = {'INTEGER': 0, 'STRING': ''}[T]
+        orc.cells[(i, a.upper())] = given[a.upper()] if a.upper() in given else default
     orc.link[i] = None
     if ref is not None and ref.upper() in given and orc.assoc is not None:
         v = given[ref.upper()]
